@@ -228,6 +228,10 @@ func normaliseDoc(m map[string]any) {
 	}
 }
 
+// IndirectFormula is the value of the key other.f wherever a source supplies it: an expression
+// whose placeholders only appear once ${other.f} itself has been substituted.
+const IndirectFormula = "${sim.a}+${sim.b}+${sim.c}"
+
 func genDoc(r rng, density float64) map[string]any {
 	doc := map[string]any{}
 	for _, k := range cfgLeafInts {
@@ -242,6 +246,10 @@ func genDoc(r rng, density float64) map[string]any {
 	}
 	if r.p(density) {
 		setPath(doc, "other.sel", pick(r, cfgSelVals))
+	}
+	if r.p(density * 0.6) {
+		// a configured value that itself consists of placeholders
+		setPath(doc, "other.f", IndirectFormula)
 	}
 	return doc
 }
@@ -336,7 +344,7 @@ func genConfig(r rng, seed uint64, id string, merge bool) *sdl.Program {
 			if merge {
 				// precedence family: fields never make the start fail
 				cf.Optional, cf.Validate = true, ""
-				if cf.Menu == "sum" || cf.Menu == "mul" || cf.Menu == "nested" || cf.Menu == "prefixStructV" {
+				if cf.Menu == "sum" || cf.Menu == "mul" || cf.Menu == "nested" || cf.Menu == "indirect" || cf.Menu == "prefixStructV" {
 					cf.Menu, cf.Keys, cf.GoType = "prefixStruct", []string{"sim.sub"}, "struct"
 				}
 			}
@@ -397,7 +405,9 @@ func genConfig(r rng, seed uint64, id string, merge bool) *sdl.Program {
 func genConf(r rng, field string) *sdl.Conf {
 	c := &sdl.Conf{Field: field, GoType: "int"}
 	c.Embed = embedChain(r, 0.15)
-	switch r.IntN(10) {
+	switch r.IntN(11) {
+	case 10:
+		c.Menu, c.Keys = "indirect", []string{"other.f"}
 	case 0:
 		c.Menu, c.Keys = "value", []string{pick(r, cfgLeafInts)}
 	case 1:
@@ -480,6 +490,7 @@ func GenerateTwins(seed uint64, idFlat, idEmb string) (*sdl.Program, *sdl.Progra
 		if r.p(0.5) {
 			sc.NodeType = "Configuration"
 		}
+		sc.Handler = r.p(0.5)
 		p.Scanners = append(p.Scanners, sc)
 	}
 	for _, t := range p.Types {
@@ -487,7 +498,7 @@ func GenerateTwins(seed uint64, idFlat, idEmb string) (*sdl.Program, *sdl.Progra
 		for fi := 0; fi < r.n(0, 2); fi++ {
 			cf := genConf(r, fmt.Sprintf("C%d", fi))
 			cf.Optional, cf.Validate, cf.Embed = true, "", nil
-			if cf.Menu == "sum" || cf.Menu == "mul" || cf.Menu == "nested" || cf.Menu == "prefixStructV" {
+			if cf.Menu == "sum" || cf.Menu == "mul" || cf.Menu == "nested" || cf.Menu == "indirect" || cf.Menu == "prefixStructV" {
 				cf.Menu, cf.Keys, cf.Default, cf.GoType = "valueDef", []string{pick(r, cfgLeafInts)}, "1", "int"
 			}
 			if len(p.Scanners) != 0 && r.p(0.35) {
@@ -532,6 +543,12 @@ func GenerateTwins(seed uint64, idFlat, idEmb string) (*sdl.Program, *sdl.Progra
 			if r.p(0.2) {
 				cu.Field = fmt.Sprintf("x%d", fi)
 				cu.Exported = false
+			}
+			switch r.IntN(10) {
+			case 0, 1:
+				cu.Via = "both"
+			case 2:
+				cu.Via = "handler"
 			}
 			for ai := 0; ai < r.n(0, 2); ai++ {
 				a := []string{pick(r, []string{"k", "mode", "Level"}) + fmt.Sprint(ai)}
